@@ -28,14 +28,18 @@ META = {
     "level_note": "S4U API, one schedule per program (the model-checker leg of the quantifier is not built). Cancelled or timed-out "
                   "requests are withdrawn from the model and what their peer gets is not judged (the statement is silent); a replay stops "
                   "without verdict at an exception nobody provoked (none seen). Cancel/timeouts are not mixed with permanent receivers "
-                  "(a cancelled eager send stays in the done queue: outside the statement). No actor is killed, no resource fails (C10). "
+                  "(a cancelled eager send stays in the done queue: outside the statement). A put/get(timeout) that expires while the model has "
+                  "it matched (transfer in flight, or peer arriving in the scheduling round of the expiry) stops the replay without verdict. "
+                  "A crash of the process after a blocking call ended with an exception is keyed ':after-failed-blocking-comm' (open known "
+                  "finding). No actor is killed, no resource fails (C10). ASan runs use the thread context factory (the raw one triggers a "
+                  "false positive of ASan's own sigaltstack interceptor when SimGrid unwinds blocked actors at the end). "
                   "Trusted base: the harness (payload registry, log order) and the python model.",
     "rule": "case = one scenario (mailbox kinds + per-actor scripts) on the platform of its batch; non-trivial = distinct scenarios whose "
             "history was replayed to the end with >=1 checked delivery and >=1 match that had to choose (>=2 acceptable candidates, or a "
             "filter skipped an older request)",
     "assumptions": ["the order of the logged call lines is the order in which maestro handled the simcalls (sequential kernel, "
                     "contexts/nthreads:1)"],
-    "ready": False,
+    "ready": True,
 }
 
 PLAT = {"nh": 3, "links": [[1e7, 1e-4]]}
@@ -96,7 +100,7 @@ def _on_result(ctx):
 
 
 def run(ctx):
-    n = ctx.size(quick=700, thorough=16000)
+    n = ctx.size(quick=700, thorough=40000)
     bs = 25
     for fl in ("hooks", "asan"):
         M.exe(fl)
